@@ -182,7 +182,12 @@ func ss2022Request(c Case) []byte {
 	salt := make([]byte, 16)
 	binary.BigEndian.PutUint64(salt, c.Csid)
 	binary.BigEndian.PutUint64(salt[8:], uint64(curNow)^c.Csid<<1)
-	ucc, _ := ss2022.NewUserCipherConfig(tcpPSK, false)
+	eih := c.Now&1 != 0
+	userPSK := tcpPSK
+	if eih {
+		userPSK = udpUserPSK
+	}
+	ucc, _ := ss2022.NewUserCipherConfig(userPSK, false)
 	sc, _ := ucc.ShadowStreamCipher(salt)
 	fixed := make([]byte, 11, 11+16)
 	if c.N == 1 {
@@ -198,7 +203,21 @@ func ss2022Request(c Case) []byte {
 		adv = (len(pt) + 1 + int(c.Csid%7)) % 65536
 	}
 	binary.BigEndian.PutUint16(fixed[9:], uint16(adv))
-	out := append([]byte(nil), salt...)
+	out := append(mustHex(c.Salt), salt...) // unsafe request stream prefix (possibly a wrong one: Flag2 flips a byte)
+	if c.Flag2 && len(out) > 16 {
+		out[0] ^= 1
+	}
+	if eih { // identity header under the server's iPSK (tcpPSK); N=7: an unknown user
+		ccc, _ := ss2022.NewClientCipherConfig(udpUserPSK, [][]byte{tcpPSK}, false)
+		blocks, _ := ccc.TCPIdentityHeaderCiphers(salt)
+		h := ccc.EIHPSKHashes()[0]
+		if c.N == 7 {
+			h[0] ^= 1
+		}
+		ih := make([]byte, 16)
+		blocks[0].Encrypt(ih, h[:])
+		out = append(out, ih...)
+	}
 	ef := sc.EncryptInPlace(fixed)
 	if c.N == 3 {
 		ef[len(ef)-1] ^= 1
@@ -355,9 +374,10 @@ func init() {
 		}})
 
 	// Shadowsocks 2022 TCP server: garbage, and requests sealed with the real key carrying hostile plaintext
-	register(engine{name: "ss2022-hs", share: 50,
+	register(engine{name: "ss2022-hs", bubble: true, share: 50,
 		gen: func(r *common.Rng, i int) Case {
 			c := Case{Entry: "ss2022-hs", Pre: true, Csid: r.U64(), TsOff: common.Pick(r, []int64{0, 0, 10, -10}), Flag: r.Chance(1, 4),
+				Now: int64(r.Intn(4)), Salt: common.Pick(r, []string{"", "", "", "160301", hx(make([]byte, 300))}), Flag2: r.Chance(1, 12),
 				PS: common.Pick(r, []int{0, 0, 0, 1, 2, 3, 4, 5, 6}), PL: common.Pick(r, []int{1, 100, 70000})}
 			pt := maybeMutate(r, tcpVarHeader(r))
 			if len(pt) > 65535 { // the fixed-length header advertises the length in 16 bits
@@ -378,6 +398,9 @@ func init() {
 				c.Hex = hx(r.Bytes(common.Pick(r, []int{0, 1, 15, 16, 42, 43, 44, 59, 60, 100, 300})))
 			case 6:
 				c.N = 6
+			case 7:
+				c.N = 7
+				c.Now |= 1
 			}
 			n := len(ss2022Request(c))
 			c.Chunks = []int{n}
@@ -387,13 +410,14 @@ func init() {
 			return c
 		},
 		impl: func(c Case) string {
-			ucc, _ := ss2022.NewUserCipherConfig(tcpPSK, false)
-			cfg := ss2022.StreamServerConfig{AllowSegmentedFixedLengthHeader: c.Flag, UserCipherConfig: ucc, RejectPolicy: ss2022.JustClose}
-			srv := cfg.NewStreamServer()
+			srv := hsServer(c)
 			out, _ := overPipe(ss2022Request(c), c.Chunks, false, func(pc netio.Conn) string {
 				req, err := srv.HandleStream(pc, logger)
 				if err != nil {
 					return "err " + classify(err)
+				}
+				if req.Addr.Equals(hsFallbackAddr) {
+					return fmt.Sprintf("fallback %d", len(req.Payload))
 				}
 				res := fmt.Sprintf("ok %s %s", renderAddr(req.Addr), hexf(req.Payload))
 				if sc, err := req.PendingConn.Proceed(); err == nil { // read the post-handshake chunks with a small / medium / large buffer
@@ -408,12 +432,7 @@ func init() {
 			})
 			return out
 		},
-		line: func(c Case) string {
-			if c.N != 0 { // the model of the pre-authentication part is exercised by the parser entries; here only well-formed envelopes are compared
-				return ""
-			}
-			return "tcpvar " + hexf(c.bytes())
-		}})
+		line: hsModelLine})
 }
 
 // renderAddrZ is renderAddr that keeps an IPv6 zone visible.
@@ -537,4 +556,72 @@ func init() {
 			}
 			return fmt.Sprintf("hosthdr %s %s %s %s", hexf([]byte(host)), ipOf(host), ipOf(inner), pa)
 		}})
+}
+
+// ---- HandleStream: server construction per case and the model line (the harness holds the keys) ----
+
+var hsFallbackAddr = conn.AddrFromIPPort(netip.MustParseAddrPort("198.51.100.80:80"))
+
+// hsServer: Now bit0 = identity-header (EIH) server, bit1 = fallback address configured; Salt = unsafe request stream prefix.
+func hsServer(c Case) *ss2022.StreamServer {
+	cfg := ss2022.StreamServerConfig{AllowSegmentedFixedLengthHeader: c.Flag, RejectPolicy: ss2022.JustClose, UnsafeRequestStreamPrefix: mustHex(c.Salt)}
+	if c.Now&2 != 0 {
+		cfg.UnsafeFallbackAddr = hsFallbackAddr
+	}
+	if c.Now&1 != 0 {
+		cfg.IdentityCipherConfig, _ = ss2022.NewServerIdentityCipherConfig(tcpPSK, false)
+		srv := cfg.NewStreamServer()
+		u, _ := ss2022.NewServerUserCipherConfig("u", udpUserPSK, false)
+		srv.ReplaceUserLookupMap(ss2022.UserLookupMap{ss2022.PSKHash(udpUserPSK): u})
+		return srv
+	}
+	cfg.UserCipherConfig, _ = ss2022.NewUserCipherConfig(tcpPSK, false)
+	return cfg.NewStreamServer()
+}
+
+func hsModelLine(c Case) string {
+	stream := ss2022Request(c)
+	ursp := mustHex(c.Salt)
+	idLen := 0
+	if c.Now&1 != 0 {
+		idLen = 16
+	}
+	want := len(ursp) + 16 + idLen + 11 + 16
+	chunk0 := len(stream)
+	if len(c.Chunks) > 0 {
+		chunk0 = min(c.Chunks[0], len(stream))
+	}
+	prefixOk, userFound, openFixed, openVar := true, true, "none", "none"
+	rest := []byte{}
+	if len(stream) >= want {
+		b := stream[:want]
+		rest = stream[want:]
+		prefixOk = bytes.Equal(b[:len(ursp)], ursp)
+		salt := b[len(ursp) : len(ursp)+16]
+		userPSK := tcpPSK
+		if idLen != 0 {
+			icc, _ := ss2022.NewServerIdentityCipherConfig(tcpPSK, false)
+			blk, _ := icc.TCP(salt)
+			h := make([]byte, 16)
+			blk.Decrypt(h, b[len(ursp)+16:len(ursp)+32])
+			want := ss2022.PSKHash(udpUserPSK)
+			userFound = bytes.Equal(h, want[:])
+			userPSK = udpUserPSK
+		}
+		if userFound {
+			ucc, _ := ss2022.NewUserCipherConfig(userPSK, false)
+			sc, _ := ucc.ShadowStreamCipher(salt)
+			if pt, err := sc.DecryptTo(make([]byte, 16), b[len(ursp)+16+idLen:]); err == nil {
+				openFixed = hexf(pt)
+				vh := int(binary.BigEndian.Uint16(pt[9:]))
+				if len(rest) >= vh+16 {
+					if pt2, err := sc.DecryptInPlace(append([]byte(nil), rest[:vh+16]...)); err == nil {
+						openVar = hexf(pt2)
+					}
+				}
+			}
+		}
+	}
+	return fmt.Sprintf("hs 16 %d %d %s %s %d %d %d 0 %s %s 1 %s %s %s", idLen, len(ursp), b01(c.Flag), b01(c.Now&2 != 0), curNow, chunk0, len(stream),
+		b01(prefixOk), b01(userFound), openFixed, openVar, hexf(rest))
 }
